@@ -468,24 +468,37 @@ from props.c20_scan import scan_repo, REVIEWED, GUARDS, check_guards   # noqa: E
 
 
 def scan_check(tier, seed):
+    """A site that is not in the reviewed list, or a missing guard, breaks the tie between the model's list of order- and
+    draw-sensitive sites and the code; no input is known on which the output differs (the process comparison of this
+    check looks for one), so it is reported as a broken correspondence (VIOLATION ... no-failing-input-found).  A reviewed
+    site whose expression now stands in another function of the same file (code moved into a helper) stays reviewed."""
     sites = scan_repo(REPO)
     problems = []
-    seen = set()
+    seen = {(s["file"], s["func"], s["kind"], s["expr"]) for s in sites}
+    vacated = {}
+    for (f, fn, k, e) in REVIEWED:
+        if (f, fn, k, e) not in seen:
+            vacated.setdefault((f, k, e), []).append(fn)
+    moved = []
     for s in sites:
         key = (s["file"], s["func"], s["kind"], s["expr"])
-        seen.add(key)
         if key not in REVIEWED:
-            problems.append(Problem("violation", "scan", s,
-                                    {"why": "set iteration / join of a set / draw at a site that is not in the reviewed list "
-                                            "(props/c20_scan.py REVIEWED): review it, model it if it reaches output"}))
+            if vacated.get((s["file"], s["kind"], s["expr"])):
+                moved.append({"site": list(key), "reviewed_as": vacated[(s["file"], s["kind"], s["expr"])]})
+                continue
+            problems.append(Problem("correspondence", "scan", s,
+                                    {"broken": "C20: correspondence scan - a set iteration / join of a set / draw at a site that is not "
+                                               "in the reviewed list (props/c20_scan.py REVIEWED); the model's list of order- and "
+                                               "draw-sensitive sites is no longer shown to be complete",
+                                     "why": "review the site, model it if it reaches output"}))
     for key, st in check_guards(REPO):
-        problems.append(Problem("violation", "scan", {"file": key[0], "func": key[1], "kind": key[2], "expr": key[3]},
-                                {"why": "order-sensitive set iteration whose invariant is no longer established: the guarding "
-                                        "statement is missing from the function", "missing_statement": st,
-                                 "invariant": REVIEWED.get(key)}))
+        problems.append(Problem("correspondence", "scan", {"file": key[0], "func": key[1], "kind": key[2], "expr": key[3]},
+                                {"broken": "C20: correspondence scan - order-sensitive set iteration whose invariant is no longer "
+                                           "established: the guarding statement is missing from the function",
+                                 "missing_statement": st, "invariant": REVIEWED.get(key)}))
     stale = [k for k in REVIEWED if k not in seen]
     return {"name": "scan", "problems": problems, "evaluations": len(sites), "nontrivial_keys": [],
-            "stats": {"sites": len(sites), "reviewed": len(REVIEWED), "stale_review_entries": len(stale),
+            "stats": {"sites": len(sites), "reviewed": len(REVIEWED), "stale_review_entries": len(stale), "moved_sites": moved,
                       "by_class": _by_class(sites),
                       "order_sensitive_unless_invariant": [{"site": list(k), "invariant": REVIEWED[k], "guards": GUARDS.get(k, [])}
                                                            for k in REVIEWED if REVIEWED[k].startswith("invariant")]},
